@@ -207,7 +207,9 @@ DICT_DOC = "\r\n".join([
     "RRULE:FREQ=YEARLY;BYMONTH=10;BYDAY=-1SU", "END:STANDARD", "END:VTIMEZONE",
     "BEGIN:VEVENT", "UID:dict@example.com", "DTSTAMP:20200101T000000Z", "DTSTART;TZID=Sim/Dict:20200310T100000",
     "DTEND;TZID=Sim/Dict:20200310T110000", "RRULE:FREQ=WEEKLY;COUNT=3",
-    "RDATE;TZID=Sim/Dict:20200311T100000,20200312T100000", "SEQUENCE:1", "GEO:1.0;2.0", "END:VEVENT",
+    "RDATE;TZID=Sim/Dict:20200311T100000,20200312T100000", "SEQUENCE:1", "GEO:1.0;2.0",
+    "SUMMARY:dictionary event", "CATEGORIES:A,B", "URL:http://example.com/a", "ATTENDEE;CN=Jane:mailto:jane@example.com",
+    "ATTACH:http://example.com/file", "END:VEVENT",
     "BEGIN:VTODO", "UID:dict-todo@example.com", "DTSTART;TZID=Sim/Dict:20200310T100000", "DURATION:PT1H",
     "BEGIN:VALARM", "TRIGGER:-PT15M", "ACTION:DISPLAY", "END:VALARM", "END:VTODO",
     "BEGIN:VFREEBUSY", "UID:dict-fb@example.com", "FREEBUSY:20200310T100000Z/PT1H", "END:VFREEBUSY",
@@ -223,6 +225,8 @@ DICT_TARGETS = [
     ("TZID:Sim/Dict", "tzid-prop", True), ("DTSTART;TZID=Sim/Dict:20200310T100000", "tzid-param", True),
     ("DURATION:PT1H", "duration", False), ("TRIGGER:", "duration", False),
     ("SEQUENCE:", "number", False), ("GEO:", "number", False),
+    ("URL:", "uri", False), ("ATTENDEE;CN=Jane", "uri", False), ("ATTACH:", "uri", False),
+    ("SUMMARY:dictionary", "text", False), ("CATEGORIES:A,B", "text", False), ("TZNAME:SDT", "text", True),
 ]
 
 
@@ -230,7 +234,7 @@ def dict_combos():
     """Every (target line, hostile value, provider) of the dictionary, in a fixed order."""
     pools = {"rrule": F.HOSTILE_RULES, "date": F.HOSTILE_DATES, "offset": F.HOSTILE_OFFSETS,
              "tzid-prop": F.HOSTILE_TZIDS, "tzid-param": F.HOSTILE_TZIDS, "duration": F.HOSTILE_DURATIONS,
-             "number": F.HOSTILE_NUMBERS}
+             "number": F.HOSTILE_NUMBERS, "uri": F.HOSTILE_URIS, "text": F.HOSTILE_TEXTS}
     lines = F._lines(DICT_DOC.encode("utf-8"))
     out = []
     for prefix, what, both in DICT_TARGETS:
